@@ -76,6 +76,13 @@ def run_method(ctx, meth, other):
     class NP:
         ndarray = TypeToken("ndarray", lambda interp, v: isinstance(v, Arr0) or (isinstance(v, Opaque) and v.what == "ndarray"))
 
+        @staticmethod
+        def shares_memory(a, b, *x, **k):
+            # whether two operands overlap in memory is arbitrary: a dunder must hand over the same operand either way
+            return ctx.fresh("shares_memory", "bool")
+
+        may_share_memory = shares_memory
+
     cfg.module_overrides["numpy"] = NP
     cfg.builtins["numbers.Number"] = numbers.Number
     interp = Interp(ctx, cfg)
@@ -93,14 +100,20 @@ def run_method(ctx, meth, other):
 
     cfg.summaries[f"{TB}:Tensor._op"] = op
     cfg.summaries[f"{TB}:Tensor._in_place_op"] = iop
-    me = SObj(T, {}, label="self")
+    # derived tensors (copies, casts, views) of an operand are different objects: handing one over instead of the operand is visible
+    for mname in ("copy", "astype", "__copy__", "reshape", "view"):
+        cfg.summaries[f"{TB}:Tensor.{mname}"] = (lambda mname: lambda i_, a, k: SObj(T, {"data": Opaque("ndarray")}, label=f"{getattr(a[0], 'label', '?')}.{mname}()"))(mname)
+    if other is _TENSOR:
+        other = SObj(T, {"data": Opaque("ndarray"), "_constant": ctx.fresh("other_constant", "bool"), "_base": None}, label="other tensor")
+    me = SObj(T, {"data": Opaque("ndarray")}, label="self")
     f, _ = T.lookup(interp, meth)
     args = [me] + ([] if other is _NONE else [other])
     r = interp.call(f, args, {})
-    return me, rec, r, ret
+    return me, other, rec, r, ret
 
 
 _NONE = object()
+_TENSOR = object()
 
 
 def _check(ctx, tag, meta, me, other, rec, r, ret, opname, order, inplace):
@@ -125,9 +138,9 @@ def _check(ctx, tag, meta, me, other, rec, r, ret, opname, order, inplace):
 def binary_harness(meth, other_kind="opaque"):
     def h(ctx: Ctx):
         other = {"opaque": lambda: Opaque("other"), "number": SymNumber, "one": lambda: 1, "one.0": lambda: 1.0, "two": lambda: 2, "zero": lambda: 0, "true": lambda: True,
-                 "half": lambda: 0.5, "minus-one": lambda: -1, "arr1": lambda: Arr0(1)}[other_kind]()
+                 "half": lambda: 0.5, "minus-one": lambda: -1, "arr1": lambda: Arr0(1), "tensor": lambda: _TENSOR}[other_kind]()
         opname, order, inplace = SPEC[meth]
-        me, rec, r, ret = run_method(ctx, meth, _NONE if order == "s" else other)
+        me, other, rec, r, ret = run_method(ctx, meth, _NONE if order == "s" else other)
         tag = f"C11.dunder.{meth}" if other_kind == "opaque" else f"C11.dunder.{meth}[other={other_kind}]"
         _check(ctx, tag, dict(function=f"{TB}:Tensor.{meth}", other=other_kind), me, other, rec, r, ret, opname, order, inplace)
 
@@ -136,8 +149,8 @@ def binary_harness(meth, other_kind="opaque"):
 
 def pow_harness(meth, exponent_kind):
     def h(ctx: Ctx):
-        other = {"int1": 1, "float1": 1.0, "int2": 2, "float2": 2.0, "arr1": Arr0(1), "arr2": Arr0(2), "int3": 3, "float": 0.5, "arr3": Arr0(3), "tensor": Opaque("tensor"), "array": Opaque("ndarray-nd")}[exponent_kind]
-        me, rec, r, ret = run_method(ctx, meth, other)
+        other = {"int1": 1, "float1": 1.0, "int2": 2, "float2": 2.0, "arr1": Arr0(1), "arr2": Arr0(2), "int3": 3, "float": 0.5, "arr3": Arr0(3), "tensor": _TENSOR, "array": Opaque("ndarray-nd")}[exponent_kind]
+        me, other, rec, r, ret = run_method(ctx, meth, other)
         inplace = meth == "__ipow__"
         if exponent_kind in ("int1", "float1", "arr1"):
             opname, order = "Positive", "s"
@@ -152,27 +165,42 @@ def pow_harness(meth, exponent_kind):
 
 def item_harness(ctx: Ctx):
     key, val = Opaque("key"), Opaque("value")
-    me, rec, r, ret = run_method(ctx, "__getitem__", key)
+    me, _o, rec, r, ret = run_method(ctx, "__getitem__", key)
     meta = dict(function=f"{TB}:Tensor.__getitem__")
     ok = len(rec) == 1 and rec[0][0] == "_op" and getattr(rec[0][1][1], "name", None) == "GetItem" and rec[0][1][2:] == [me] and rec[0][2] == {"op_args": (key,)}
     ctx.oblige("C11.dunder.__getitem__", ok and r is ret, **meta)
 
 
-def setitem_harness(ctx: Ctx):
+def setitem_harness(ctx: Ctx, value_kind="opaque"):
     key, val = Opaque("key"), Opaque("value")
     cfgless = None
     cfg = Config()
     cfg.builtins = default_builtins()
+
+    class NP:
+        ndarray = TypeToken("ndarray", lambda interp, v: isinstance(v, Opaque) and v.what == "ndarray")
+
+        @staticmethod
+        def shares_memory(a, b, *x, **k):
+            return ctx.fresh("shares_memory", "bool")
+
+        may_share_memory = shares_memory
+
+    cfg.module_overrides["numpy"] = NP
     interp = Interp(ctx, cfg)
     T = interp.global_lookup(interp.module(TB), "Tensor")
+    for mname in ("copy", "astype", "__copy__"):
+        cfg.summaries[f"{TB}:Tensor.{mname}"] = (lambda mname: lambda i_, a, k: SObj(T, {"data": Opaque("ndarray")}, label=f"value.{mname}()"))(mname)
+    if value_kind == "tensor":
+        val = SObj(T, {"data": Opaque("ndarray"), "_base": None}, label="value tensor")
     rec = []
     cfg.summaries[f"{TB}:Tensor._in_place_op"] = lambda i_, a, k: rec.append((a, k))
     cfg.summaries[f"{TB}:Tensor._op"] = lambda i_, a, k: rec.append(("_op", a, k))
-    me = SObj(T, {}, label="self")
+    me = SObj(T, {"data": Opaque("ndarray")}, label="self")
     f, _ = T.lookup(interp, "__setitem__")
     r = interp.call(f, [me, key, val], {})
     ok = len(rec) == 1 and len(rec[0]) == 2 and rec[0][0][0] is me and getattr(rec[0][0][1], "name", None) == "SetItem" and rec[0][0][2:] == [me, val] and rec[0][1] == {"op_args": (key,)}
-    ctx.oblige("C11.dunder.__setitem__", ok and r is None, function=f"{TB}:Tensor.__setitem__")
+    ctx.oblige("C11.dunder.__setitem__" + ("" if value_kind == "opaque" else f"[value={value_kind}]"), ok and r is None, function=f"{TB}:Tensor.__setitem__")
 
 
 def obligations(tier="quick"):
@@ -183,12 +211,12 @@ def obligations(tier="quick"):
         hs.append((meth, binary_harness(meth)))
         if SPEC[meth][1] != "s":
             # the operand's VALUE must not change which operation is recorded (only `**` has a documented value-dependent routing)
-            for ok_ in ("number", "one", "one.0", "two", "zero", "true", "half", "minus-one", "arr1"):
+            for ok_ in ("number", "one", "one.0", "two", "zero", "true", "half", "minus-one", "arr1", "tensor"):
                 hs.append((f"{meth}[{ok_}]", binary_harness(meth, ok_)))
     for meth in ("__pow__", "__ipow__"):
         for ek in ("int1", "float1", "int2", "float2", "arr1", "arr2", "int3", "float", "arr3", "tensor", "array"):
             hs.append((f"{meth}[{ek}]", pow_harness(meth, ek)))
-    hs += [("__getitem__", item_harness), ("__setitem__", setitem_harness)]
+    hs += [("__getitem__", item_harness), ("__setitem__", setitem_harness), ("__setitem__[tensor]", lambda ctx: setitem_harness(ctx, "tensor"))]
     for meth in list(SPEC) + ["__pow__", "__ipow__", "__getitem__", "__setitem__"]:
         try:
             _m, node, _c = frontend.find(f"{TB}:Tensor.{meth}")
